@@ -22,35 +22,39 @@ use leptos_i18n_parser::parse_locales::locale::{BuildersKeys, Locale};
 
 mod datakey;
 
-#[derive(Clone)]
-enum EitherIter<A, B> {
-    Iter1(A),
-    Iter2(B),
-}
-
-impl<T, A: Iterator<Item = T>, B: Iterator<Item = T>> Iterator for EitherIter<A, B> {
-    type Item = T;
-
-    fn next(&mut self) -> Option<Self::Item> {
-        match self {
-            EitherIter::Iter1(iter) => iter.next(),
-            EitherIter::Iter2(iter) => iter.next(),
-        }
-    }
-}
-
 /// Contains informations about the translations.
 pub struct TranslationsInfos {
     locales: BuildersKeys,
+    locales_names: Vec<Rc<str>>,
     paths: Vec<String>,
 }
 
 impl TranslationsInfos {
     fn parse_inner(dir_path: Option<PathBuf>) -> Result<Self> {
         // We don't really care for warnings, they will already be displayed by the macro
-        let (locales, _, paths) = parse_locales::parse_locales(true, dir_path)?;
+        let (locales, cfg_file, foreign_keys_paths, warnings, paths) =
+            parse_locales::parse_locales_raw(true, dir_path)?;
 
-        let infos = TranslationsInfos { locales, paths };
+        // the configured locales, the parsed values only know them per namespace.
+        let locales_names = cfg_file
+            .locales
+            .iter()
+            .map(|locale| locale.name.clone())
+            .collect();
+
+        let locales = parse_locales::make_builder_keys(
+            locales,
+            &cfg_file,
+            foreign_keys_paths,
+            &warnings,
+            true,
+        )?;
+
+        let infos = TranslationsInfos {
+            locales,
+            locales_names,
+            paths,
+        };
 
         // same check as the `load_locales!` macro, `get_locales_langids` rely on it.
         for locale in infos.get_locales() {
@@ -86,20 +90,7 @@ impl TranslationsInfos {
 
     /// Return an iterator containing the name of each locales.
     pub fn get_locales(&self) -> impl Iterator<Item = Rc<str>> + '_ {
-        fn map_locales(locales: &[Locale]) -> impl Iterator<Item = Rc<str>> + '_ {
-            locales.iter().map(|locale| locale.name.name.clone())
-        }
-        match &self.locales {
-            BuildersKeys::NameSpaces { namespaces, .. } => {
-                let iter = namespaces
-                    .iter()
-                    .take(1)
-                    .map(|ns| &ns.locales)
-                    .flat_map(|locales| map_locales(locales));
-                EitherIter::Iter1(iter)
-            }
-            BuildersKeys::Locales { locales, .. } => EitherIter::Iter2(map_locales(locales)),
-        }
+        self.locales_names.iter().cloned()
     }
 
     /// Return the parsed and sliced translations
